@@ -27,8 +27,12 @@ TUPLES = [
     "extr:1;fmg:0;strat:0;maxit:150;div2:0;maxlev:6;cycle:2",     # t11
     "extr:1;fmg:0;strat:0;maxit:150;div2:1;maxlev:6;cycle:2",     # t12
     "extr:1;fmg:1;strat:1;maxit:150;div2:0;gridfile:6;cg:0",      # t13 a user's non-uniform grid loaded from files, geometry not cached
+    # tuples every solver REJECTS in setup(): the caller catches the exception, changes the options and goes on with the same object
+    "extr:0;fmg:0;strat:0;maxit:150;div2:0;cc:0;cg:0",            # t14 take strategy without caches
+    "extr:1;fmg:1;strat:1;maxit:150;div2:0;nr_exp:2;ntheta_exp:3",# t15 a grid that cannot be coarsened
 ]
-ALPHABET = {"quick": [0, 1, 2, 3, 4, 5, 11, 12, 13], "thorough": [0, 1, 2, 3, 4, 5, 6, 7, 11, 12, 13]}
+ALPHABET = {"quick": [0, 1, 2, 3, 4, 5, 11, 12, 13], "thorough": [0, 1, 2, 3, 4, 5, 6, 7, 11, 12, 13, 14, 15]}
+REJECTED = [14, 15]
 NOSETUP = {0: [8, 9], 8: [0, 9], 9: [0, 8], 1: [10], 10: [1]}   # tuples that differ in solve-time options only
 
 
@@ -62,6 +66,14 @@ def histories(tier):
         for tup in itertools.product(alpha, repeat=4):
             if len(set(tup)) >= 2:
                 out.append([(t, 1) for t in tup])
+    if tier != "thorough":
+        # a rejected block (setup() throws, the caller goes on with the same object) between / before accepted ones
+        for rej in REJECTED:
+            for b in alpha:
+                out.append([(rej, 1), (b, 1)])
+                out.append([(rej, 1), (rej, 1), (b, 2)])
+                for a in alpha:
+                    out.append([(a, 1), (rej, 1), (b, 1)])
     # solve-without-setup after an option change that does not need a new setup (negative count = no setup())
     for a, bs in NOSETUP.items():
         for b in bs:
